@@ -172,9 +172,9 @@ Fixpoint steps_ok (mi : option N) (evs : list ev) (tr : list ostep)
   | e :: evs', s :: tr' =>
     let o := o_outs s in
     let sp' := sp ++ sent_payloads e o in
-    (* ledger: a request that is active at a peer has a substream being opened or a future in
-       flight, so "nothing outstanding" implies "nothing owed" (this is the premise under which
-       C13_exactly_one_settled applies to the quiescent runs checked below) *)
+    (* ledger (Proofs.inv_cov, proved for the model; re-checked here on the real bookkeeping): a
+       request that is active at a peer has a substream being opened or a future in flight, so
+       "nothing outstanding" implies "nothing owed" *)
     (if (d_npouts (o_dump s) =? 0) && (d_nfuts (o_dump s) =? 0) then d_nactive (o_dump s) =? 0 else true) &&
     (* inbound bound *)
     match mi with Some m => d_nrd (o_dump s) + d_nrs (o_dump s) <=? m | None => true end &&
